@@ -303,6 +303,8 @@ Proof.
     rewrite frames_spawn. unfold all_frames in *. simpl. eapply mutex_on_frames; [| |exact Inv]; intros r0; rewrite count_app; simpl; lia.
   - simpl in H. destruct (Nat.ltb slot (length (s_slots s))); [|discriminate]. inversion H; subst; clear H.
     rewrite frames_spawn. unfold all_frames in *. simpl. eapply mutex_on_frames; [| |exact Inv]; intros r0; rewrite count_app; simpl; lia.
+  - simpl in H. destruct (Nat.ltb r (length (s_rrs s))); [|discriminate]. inversion H; subst; clear H. simpl.
+    eapply mutex_on_setl; [split; reflexivity | | | exact Inv]; intros r'; reflexivity || lia.
 Qed.
 
 Lemma init_tasks_counts : forall p n k, (forall r, p (FRunWait r) = false) -> count p (concat (map snd (init_tasks n k))) = 0.
@@ -403,6 +405,10 @@ Proof.
     apply andb_true_iff in E. destruct E as [E _]. apply Nat.eqb_eq in E. subst. exact St.
   - simpl in H. destruct (Nat.eqb (n_timer (getN s n)) 1); [|discriminate]. inversion H; subst; clear H. exact St.
   - simpl in H. destruct (Nat.ltb slot (length (s_slots s))); [|discriminate]. inversion H; subst; clear H. exact St.
+  - simpl in H. destruct (Nat.ltb r0 (length (s_rrs s))); [|discriminate]. inversion H; subst; clear H.
+    unfold getr, with_rr in *. simpl. rewrite nth_setl.
+    destruct (Nat.eqb r0 r && Nat.ltb r0 (length (s_rrs s))) eqn:E; [|exact St].
+    apply andb_true_iff in E. destruct E as [E _]. apply Nat.eqb_eq in E. subst. exact St.
 Qed.
 
 Lemma run_stop_stable : forall ls s s' r, run s ls = Some s' -> r_stop (getr s r) = true -> r_stop (getr s' r) = true.
@@ -432,6 +438,7 @@ Proof.
     destruct (r_clock (getr s r)); [discriminate|]. inversion H; subst. simpl. apply length_setl.
   - simpl in H. destruct (Nat.eqb (n_timer (getN s n)) 1); [|discriminate]. inversion H; reflexivity.
   - simpl in H. destruct (Nat.ltb slot (length (s_slots s))); [|discriminate]. inversion H; reflexivity.
+  - simpl in H. destruct (Nat.ltb r (length (s_rrs s))); [|discriminate]. inversion H; subst. simpl. apply length_setl.
 Qed.
 
 Lemma run_rrs_length : forall ls s s', run s ls = Some s' -> length (s_rrs s') = length (s_rrs s).
